@@ -244,6 +244,10 @@ pub struct Case {
     pub args: Vec<Arg>,
     /// request to the Lean driver (None: no model; crash oracle only)
     pub lean: Option<String>,
+    /// run alone in its own worker with a short timeout: the case passes the
+    /// same list twice (or otherwise could make a built-in wait for itself),
+    /// so a hang must cost seconds, not a batch timeout
+    pub solo: bool,
 }
 
 const PW: u32 = usize::BITS;
@@ -307,8 +311,14 @@ impl Tab {
            class: impl Into<String>, args: Vec<Arg>, lean: Option<String>) {
         self.out.push(Case {
             name, covers: covers.to_vec(), id: id.to_string(), src: src.to_string(), sig,
-            class: class.into(), args, lean,
+            class: class.into(), args, lean, solo: false,
         });
+    }
+    /// mark the cases added since `from` as solo
+    fn solo_since(&mut self, from: usize) {
+        for c in &mut self.out[from..] {
+            c.solo = true;
+        }
     }
 }
 
@@ -674,12 +684,16 @@ fn host_lists(t: &mut Tab, thorough: bool) {
             Some(format!("c10 {PW} hl is_empty {tok}")));
         t.add("List.get", &[], "List.for.host", "fn main(l: List[u64]) -> u64 { let s = 0; for x in l { s = s + x % 1000; } s }", "lu>u64", format!("{c} for-loop"),
             vec![la.clone()], Some(format!("c10 {PW} hl forsum {tok}")));
+        let mark = t.out.len();
         t.add("List.concat", &[], "List.concat.host.alias", "fn main(l: List[u64]) -> List[u64] { l.concat(l) }", "lu>lu", format!("{c} other=same-list"),
             vec![la.clone()], Some(format!("c10 {PW} hl concat {tok} {tok}")));
         t.add("List.concat", &[], "List.concat.host.alias-operator", "fn main(l: List[u64]) -> List[u64] { l + l }", "lu>lu", format!("{c} other=same-list"),
             vec![la.clone()], Some(format!("c10 {PW} hl concat {tok} {tok}")));
         t.add("List.get", &[], "List.eq.host.alias", "fn main(l: List[u64]) -> bool { l == l }", "lu>b", format!("{c} ==same-list"),
             vec![la.clone()], Some(format!("c10 {PW} hl eq {tok} {tok}")));
+        t.add("List.contains", &["List.new", "List.push"], "List.contains.self-nested", "fn main(l: List[u64]) -> bool { let ll: List[List[u64]] = List.new(); ll.push(l); ll.contains(l) }",
+            "lu>b", format!("{c} list-of-lists contains its own element"), vec![la.clone()], Some("c10 64 hl eq lu: lu:".into()));
+        t.solo_since(mark);
         for (i, il) in indices(n) {
             t.add("List.get", &[], "List.get.host", "fn main(l: List[u64], i: u64) -> u64? { l.get(i) }", "lu,u64>ou64",
                 format!("{c} idx={il}"), vec![la.clone(), u(i)], Some(format!("c10 {PW} hl get {tok} {i}")));
@@ -730,10 +744,12 @@ fn host_lists(t: &mut Tab, thorough: bool) {
             vec![la.clone()], Some(format!("c10 {PW} hl capacity {tok}")));
         t.add("List.is_empty", &[], "List.is_empty.host.String", "fn main(l: List[String]) -> bool { l.is_empty() }", "lS>b", format!("{c} (String elements)"),
             vec![la.clone()], Some(format!("c10 {PW} hl is_empty {tok}")));
+        let mark = t.out.len();
         t.add("List.concat", &[], "List.concat.host.String.alias", "fn main(l: List[String]) -> List[String] { l.concat(l) }", "lS>lS",
             format!("{c} other=same-list (String elements)"), vec![la.clone()], Some(format!("c10 {PW} hl concat {tok} {tok}")));
         t.add("List.get", &[], "List.eq.host.String.alias", "fn main(l: List[String]) -> bool { l == l }", "lS>b", format!("{c} ==same-list (String elements)"),
             vec![la.clone()], Some(format!("c10 {PW} hl eq {tok} {tok}")));
+        t.solo_since(mark);
         for (i, il) in indices(n) {
             t.add("List.get", &[], "List.get.host.String", "fn main(l: List[String], i: u64) -> String? { l.get(i) }", "lS,u64>oS",
                 format!("{c} idx={il} (String elements)"), vec![la.clone(), u(i)], Some(format!("c10 {PW} hl get {tok} {i}")));
